@@ -36,7 +36,11 @@ type PDoc struct {
 }
 
 type POp struct {
-	Kind string `json:"kind"` // bulk | conc | crashin | power | restart | restartcrash
+	Kind string `json:"kind"` // bulk | conc | fault | obs | crashin | power | restart | restartcrash | skip
+	// fault: one write of the bulk fails with EFBIG after Cut bytes (File = docs | meta); Acked = the store's answer
+	File  string `json:"file,omitempty"`
+	Cut   int    `json:"cut,omitempty"`
+	Acked bool   `json:"acked,omitempty"`
 	Bulk int    `json:"bulk,omitempty"`
 	// conc: bulks submitted concurrently (start stagger in microseconds); Order = the order in
 	// which they reserved their docs offsets, read from the op log after the run
@@ -55,6 +59,7 @@ type Plan struct {
 	Bulks [][]PDoc `json:"bulks"`
 	Ops   []POp    `json:"ops"`
 	Seed  uint64   `json:"seed"` // run-time choices
+	Fault bool     `json:"fault,omitempty"` // fault history: bulks go through xbulk (no WaitIdle, see fault.go)
 }
 
 func (d PDoc) mid() uint64 { return 1000 + uint64(d.ID) }
@@ -535,6 +540,19 @@ func exec(plan Plan, tmp string) (res *result) {
 			docs = append(docs, storectl.Doc{MID: d.mid(), RID: d.rid(), BodyHex: hex.EncodeToString([]byte(d.Body)), Tokens: toks})
 		}
 		x.calls = append(x.calls, fmt.Sprintf("bulk:%d", bi))
+		if plan.Fault {
+			extra, _ := json.Marshal(faultReq{Docs: plan.Bulks[bi]})
+			r, err := x.child.Call(storectl.Req{Op: "xbulk", Extra: extra})
+			if err != nil {
+				return err
+			}
+			var fr faultResp
+			json.Unmarshal(r.Extra, &fr)
+			if !fr.Acked {
+				return errors.New("append failed without an injected fault: " + fr.Err)
+			}
+			return nil
+		}
 		_, err := x.child.Call(storectl.Req{Op: "bulk", Docs: docs})
 		return err
 	}
@@ -556,6 +574,71 @@ func exec(plan Plan, tmp string) (res *result) {
 			if crashedBefore {
 				ingestAfterCrash = true
 			}
+		case "obs":
+			if x.child == nil {
+				continue
+			}
+			o := x.observe()
+			res.obs = append(res.obs, o)
+			if o.Died {
+				res.plan.Ops = res.plan.Ops[:i+1]
+				res.plan.Ops[i].Kind = "restart"
+				return
+			}
+		case "fault":
+			if x.child == nil {
+				op.Kind = "skip"
+				continue
+			}
+			extra, _ := json.Marshal(faultReq{Docs: plan.Bulks[op.Bulk]})
+			x.calls = append(x.calls, "q")
+			r, err := x.child.Call(storectl.Req{Op: "plen", Extra: extra})
+			if err != nil {
+				return fail(fmt.Errorf("%w: plen: %v", errHarness, err))
+			}
+			var pl faultResp
+			json.Unmarshal(r.Extra, &pl)
+			l := pl.LD
+			if op.File == "meta" {
+				l = pl.LM
+			}
+			if op.Cut < 0 {
+				op.Cut = min(pickT(x.r, l), l-1)
+			}
+			extra, _ = json.Marshal(faultReq{Docs: plan.Bulks[op.Bulk], File: op.File, Cut: op.Cut})
+			x.calls = append(x.calls, fmt.Sprintf("fault:%d", op.Bulk))
+			r, err = x.child.Call(storectl.Req{Op: "fbulk", Extra: extra})
+			if err != nil {
+				res.obs = append(res.obs, obs{Died: true, Why: "store died on a failed write: " + short(err.Error())})
+				res.plan.Ops = res.plan.Ops[:i+1]
+				res.plan.Ops[i].Kind = "restart"
+				return
+			}
+			var fr faultResp
+			json.Unmarshal(r.Extra, &fr)
+			if fr.Err == "unplaceable" {
+				op.Kind = "skip"
+				x.calls[len(x.calls)-1] = "q"
+				continue
+			}
+			if op.File == "meta" {
+				op.Cut = int(fr.Limit - fr.OffM)
+			} else {
+				op.Cut = int(fr.Limit - fr.OffD)
+			}
+			op.Acked = fr.Acked
+			if d, e1 := hex.DecodeString(fr.DHex); e1 == nil && len(d) >= 33 {
+				if m, e2 := hex.DecodeString(fr.MHex); e2 == nil && len(m) >= 33 {
+					bb := &res.bulks[op.Bulk]
+					if !bb.known {
+						bb.dpay, bb.draw = d[33:], binary.LittleEndian.Uint64(d[9:17])
+						bb.mpay, bb.mraw = m[33:], binary.LittleEndian.Uint64(m[9:17])
+						bb.known = true
+					}
+				}
+			}
+			submitted(op.Bulk)
+			crashedBefore = true
 		case "conc":
 			if x.child == nil {
 				continue
@@ -724,6 +807,13 @@ func natList(xs []int) string { return casefile.NatList(xs) }
 
 func coqCase(res *result) (string, bool) {
 	var sb strings.Builder
+	kept := res.plan.Ops[:0:0]
+	for _, o := range res.plan.Ops {
+		if o.Kind != "skip" {
+			kept = append(kept, o)
+		}
+	}
+	res.plan.Ops = kept
 	sb.WriteString("CHist [")
 	for i, b := range res.plan.Bulks {
 		if i > 0 {
@@ -749,6 +839,12 @@ func coqCase(res *result) (string, bool) {
 		switch o.Kind {
 		case "bulk":
 			fmt.Fprintf(&sb, "IBulk %d", o.Bulk)
+		case "fault":
+			fmt.Fprintf(&sb, "IFault %d %s %d %s", o.Bulk, casefile.Bool(o.File == "meta"), o.Cut, casefile.Bool(o.Acked))
+		case "obs":
+			sb.WriteString("IObs")
+		case "skip":
+			sb.WriteString("IPower") // unreachable: skipped operations are removed before rendering
 		case "conc":
 			ord := o.Order
 			if len(ord) == 0 {
@@ -844,7 +940,7 @@ func coqCase(res *result) (string, bool) {
 		if !res.bulks[i].known {
 			// a bulk that was never sent (history cut short) is harmless; one that was sent is not
 			for _, o := range res.plan.Ops {
-				if (o.Kind == "bulk" || o.Kind == "crashin") && o.Bulk == i {
+				if (o.Kind == "bulk" || o.Kind == "crashin" || o.Kind == "fault") && o.Bulk == i {
 					return "", false
 				}
 				if o.Kind == "conc" {
@@ -983,6 +1079,45 @@ func (g *gen) concurrent() Plan {
 	return p
 }
 
+// one write fails with an I/O error (no crash); then either a stop and a start, or further
+// acknowledged bulks first (class fault-ingest)
+func (g *gen) faulty() Plan {
+	p := Plan{Seed: g.r.U64(), Fault: true}
+	p.Ops = append(p.Ops, POp{Kind: "restart"})
+	nb := g.r.Range(0, 3)
+	for j := 0; j < nb; j++ {
+		p.Bulks = append(p.Bulks, g.bulk(3))
+		p.Ops = append(p.Ops, POp{Kind: "bulk", Bulk: len(p.Bulks) - 1})
+	}
+	p.Bulks = append(p.Bulks, g.bulk(3))
+	fb := len(p.Bulks) - 1
+	file := "docs"
+	if g.r.Bool() {
+		file = "meta"
+	}
+	p.Ops = append(p.Ops, POp{Kind: "fault", Bulk: fb, File: file, Cut: -1, T: 0, KD: 0, KM: 0})
+	if g.r.Chance(1, 2) {
+		p.Class = "fault-ingest"
+		n := g.r.Range(1, 2)
+		for j := 0; j < n; j++ {
+			if j == 0 && g.r.Chance(1, 3) { // the client retries the failed bulk
+				p.Ops = append(p.Ops, POp{Kind: "bulk", Bulk: fb})
+				continue
+			}
+			p.Bulks = append(p.Bulks, g.bulk(3))
+			p.Ops = append(p.Ops, POp{Kind: "bulk", Bulk: len(p.Bulks) - 1})
+		}
+	} else {
+		p.Class = "fault-restart"
+	}
+	p.Ops = append(p.Ops, POp{Kind: "obs"}, POp{Kind: "restart"})
+	if g.r.Chance(1, 2) {
+		p.Bulks = append(p.Bulks, g.bulk(2))
+		p.Ops = append(p.Ops, POp{Kind: "bulk", Bulk: len(p.Bulks) - 1}, POp{Kind: "restart"})
+	}
+	return p
+}
+
 // the designed witness shape: bulk, crash inside the next one, start, further bulk, start
 func (g *gen) witness(k, t int, retry bool) Plan {
 	g2 := &gen{r: rng.New(77), nextID: 0} // fixed documents: block lengths are the same for every t
@@ -1087,6 +1222,14 @@ func main() {
 		for i := 0; i < nConc; i++ {
 			g.nextID = 0
 			plans = append(plans, g.concurrent())
+		}
+		nFault := 60
+		if *tier == "thorough" {
+			nFault = 500
+		}
+		for i := 0; i < nFault; i++ {
+			g.nextID = 0
+			plans = append(plans, g.faulty())
 		}
 		for i := 0; i < nBig; i++ {
 			bigs = append(bigs, genBigTrial(g.r, *tier == "thorough"))
